@@ -35,7 +35,7 @@ CLAIMS = {
    note=TRUST + "hook Lfo::verif_phase_bits is the phase; frequencies in [0,fs], finite phases."),
  "C12": dict(engine="c12_walk+lfo_history", design="3 LFO / C12",
    technique="exhaustive enumeration of all 2^24 adjacent phase pairs at increment 1 incl. the wrap (thorough) / wrap region + sampled cells (quick), plus proptest walks with larger increments",
-   text="Every adjacent pair of the smallest-increment walk and generated (start, increment) walks is checked against |dSine| <= 2pi*1.002*d+2ulp and |dTriangle| <= 4d with d the actual circular phase step.",
+   text="Every adjacent pair of the smallest-increment walk and generated (start, increment) walks is checked against |dSine| <= 2pi*1.002*d+2ulp and |dTriangle| <= 4d with d the nominal per-tick phase step (the steady step since the last frequency change).",
    note=TRUST + "hook Lfo::verif_phase_bits is the phase."),
  "C20": dict(engine="c20_bits+differentials", design="3 Cross-cutting / C20",
    technique="exhaustive enumeration of all 2^32 f32 bit patterns (thorough) / strided + special patterns (quick) and all u8; differential property testing raw vs clamped configuration",
@@ -47,7 +47,7 @@ CLAIMS = {
    note=TRUST + "at most 32 outstanding note-ons (longer cases truncated and counted); CC123 with a non-zero value byte accepted under either reading."),
  "C05": dict(engine="midi_model", design="3 MIDI / C05",
    technique="model-based property testing (proptest histories with edge polls at arbitrary positions vs two-latch model)",
-   text="Every rising_gate()/falling_gate() poll placed anywhere in generated histories is compared with a two-latch reference model, plus the implications rising=>gate high and falling=>gate low.",
+   text="Every rising_gate()/falling_gate() poll placed anywhere in generated histories is compared with a two-latch reference driven by the gate transitions actually observed on the receiver (so the oracle does not depend on C04), plus the implications rising=>gate high and falling=>gate low.",
    note=TRUST + "edges are latches: two transitions between two polls give one true, as the statement's 'unless ... before it is read' clauses say."),
  "C06": dict(engine="midi_stream+midi_meta", design="3 MIDI / C06",
    technique="differential + metamorphic property testing on generated byte streams (and libFuzzer target midi_stream in the thorough tier)",
@@ -75,11 +75,11 @@ CLAIMS = {
    note=TRUST + "the window clause is armed only when the record shows the window path was taken (fraction reproduces the unclamped input); NaN inputs are left to C17."),
  "C13": dict(engine="glide_c13", design="3 Glide / C13",
    technique="property-based testing over generated input/set_time schedules with a history invariant (hull, monotone approach, no crossing, settling) and a derived f32-resolution allowance",
-   text="After every sample of generated schedules (times incl. 0 and <= 2/fs switched in mid-glide, inputs in [-10,10]) the output must stay in the hull of 0 and the inputs seen, approach a held input monotonically without crossing it, and be within 1% after max(3t, 8 samples); rounding allowance E_n = (1-a)E_{n-1} + 4 ulp reported as observed/allowed.",
+   text="After every sample of generated schedules (times incl. 0 and <= 2/fs switched in mid-glide, inputs in [-10,10]) the output must stay in the hull of 0 and the inputs seen, approach a held input monotonically without crossing it, and be within 1% after max(3t, 8 samples); rounding allowance E_n = (1-a)E_{n-1} + 4 ulp reported as observed/allowed. A case rejected by this tight oracle is re-judged with the allowance and settle horizon of the slowest legal setting; only a failure of both is a violation (slowness relative to the time setting is C14's business).",
    note=TRUST + "times in [0,10], inputs in [-10,10]; in-band set_time calls may or may not take effect (slowest admissible time sizes the allowance)."),
  "C14": dict(engine="glide_c14", design="3 Glide / C14",
    technique="property-based testing of step responses over the (fs,t) plane plus differential testing of set_time histories against fresh instances",
-   text="Step responses of fresh processors over generated (fs, t, base, step): coverage in [0.40,0.55] at t/10 and >= 0.995 at t (t*fs >= 100), fastest response below two samples, t > 10 s identical to 10 s; histories of set_time calls (creep progressions inside/outside the 0.05 s dead band) must respond like a fresh processor at one of the times the statement allows to be in effect.",
+   text="Step responses of fresh processors over generated (fs, t, base, step): coverage in [0.40,0.55] at t/10 and >= 0.995 at t (t*fs >= 100), fastest response below two samples, t > 10 s identical to 10 s; histories of set_time calls (creep progressions inside/outside the 0.05 s dead band) must respond like a processor on which one of the times the statement allows to be in effect was set by two out-of-band calls.",
    note=TRUST + "an in-band call may be ignored or honoured; fresh processor = time 0."),
  "C15": dict(engine="ribbon_history", design="3 Ribbon / C15",
    technique="model-based property testing (run-length model + edge latches over generated multi-press histories at 16 compiled sample rates)",
@@ -130,10 +130,11 @@ def main():
         },
         "engines": [
             {"name": "vcheck", "path": "/verif/harness", "serves_properties": sorted(CLAIMS), "kind_free_text": "proptest model-based / property-based runners and complete generators, fixed seeds from VERIF_SEED, shrinking, replay files"},
+            {"name": "vfuzz", "path": "/verif/fuzz", "serves_properties": ["C01","C02","C03","C04","C05","C06","C07","C08","C09","C13","C15","C16","C17","C18","C19"], "kind_free_text": "cargo-fuzz / libFuzzer targets (thorough tier): bytes are hand-decoded into the same case types and judged by the same oracles; crash artifacts are re-judged in-process and become ordinary replay files"},
             {"name": "vcore", "path": "/verif/core", "serves_properties": sorted(CLAIMS), "kind_free_text": "case types, interpreters, reference models and oracles shared by the proptest harness and the libFuzzer targets"},
         ],
         "checks": checks,
-        "notes": "Findings so far are listed in /verif/known_findings.txt (fixed: lines = repaired in /repo by a 'fix:' commit). ./check exits 2 (INCONCLUSIVE) on build failure or watchdog, never 1.",
+        "notes": "Sensitivity evidence: mutants/RESULTS.md (68 mutants) and seeded/*/meta.json (changes written by independent sub-agents). Findings so far are listed in /verif/known_findings.txt (fixed: lines = repaired in /repo by a 'fix:' commit). ./check exits 2 (INCONCLUSIVE) on build failure or watchdog, never 1.",
         "not_applicable": na,
     }
     json.dump(m, open(os.path.join(HERE, "MANIFEST.json"), "w"), indent=1)
